@@ -412,6 +412,10 @@ func (h h1) Gen(prop, tier string, r *simrt.Rng) (any, simrt.Config) {
 	// setup
 	if r.Intn(3) == 0 {
 		c.Prog.SetupSleepNs = int64(1+r.Intn(50))*int64(time.Millisecond) + 29
+		if r.Intn(4) == 0 {
+			// a setup that takes as long as many ticks, or longer than the whole run: nothing is counted from before it ended
+			c.Prog.SetupSleepNs = int64(simrt.Pick(r, 300, 1200, 11000))*int64(time.Millisecond) + 29
+		}
 	}
 	if prop == "C06" || r.Intn(4) == 0 {
 		for j, m := 0, 1+r.Intn(3); j < m; j++ {
@@ -421,6 +425,9 @@ func (h h1) Gen(prop, tier string, r *simrt.Rng) (any, simrt.Config) {
 			}
 			if r.Intn(3) == 0 {
 				cp.SleepNs = int64(1+r.Intn(20))*int64(time.Millisecond) + 31
+				if (prop == "C06" || prop == "C05" || prop == "C08") && r.Intn(6) == 0 {
+					cp.SleepNs = int64(simrt.Pick(r, 700, 10500, 31000))*int64(time.Millisecond) + 31 // teardown takes as long as it takes
+				}
 			}
 			c.Prog.SetupCleanups = append(c.Prog.SetupCleanups, cp)
 		}
